@@ -415,6 +415,38 @@ pub fn yuv_sample(op: &Op, pl: usize, x: usize, y: usize) -> u16 {
     // made of identical rows, of identical columns, of rows repeated in runs, or of row pairs -
     // flat areas, bars and stripes; what a shortcut for "same as the row above" would key on
     // (and what random samples never offer: two equal rows of 16 samples have probability 2^-128)
+    // in a quarter of the structured frames the two chroma planes are equal to each other
+    let pl = if op.datamode == 4 && pl == 2 && mix(op.dataseed, 0x5900) % 4 == 0 { 1 } else { pl };
+    if op.datamode == 8 {
+        // video content with neutral areas: greyscale (chroma planes neutral everywhere),
+        // letterbox / pillarbox bars (black luma, neutral chroma), or a neutral-chroma top part
+        // above a coloured rest. Neutral chroma decodes to exactly 0.0: where "is this image
+        // grey?" shortcuts live.
+        let neutral = (1u64 << (bd - 1)).min(tmax);
+        let black = if op.cfg.full != 0 { 0 } else { 16u64 << (bd - 8) };
+        let (lw, lh) = (op.geo[0].max(1), op.geo[1].max(1));
+        // position of this sample in luma coordinates
+        let (sx, sy) = if pl == 0 { (0, 0) } else { (op.cfg.ssx, op.cfg.ssy) };
+        let (lx, ly) = ((x as u64) << sx, (y as u64) << sy);
+        let hsh = mix(op.dataseed, 0x6c62);
+        let style = hsh % 4;
+        let kx = 1 + (hsh >> 8) % (lw / 2).max(1);
+        let ky = 1 + (hsh >> 24) % (lh / 2).max(1);
+        let in_bar = match style {
+            1 => ly < ky || ly + ky >= lh,
+            2 => lx < kx || lx + kx >= lw,
+            _ => false,
+        };
+        let r = mix(op.dataseed, (pl as u64) << 40 | (y as u64) << 20 | x as u64);
+        let v = if pl == 0 {
+            if in_bar { black } else { r % (cmax + 1) }
+        } else if style == 0 || in_bar || (style == 3 && ly < ky.max(lh / 2)) {
+            neutral
+        } else {
+            r % (cmax + 1)
+        };
+        return v.min(tmax) as u16;
+    }
     let (x, y) = if op.datamode == 4 {
         match mix(op.dataseed, 0x5700 + pl as u64) % 7 {
             0 => (x, y),
@@ -435,6 +467,20 @@ pub fn yuv_sample(op: &Op, pl: usize, x: usize, y: usize) -> u16 {
     };
     let r = mix(op.dataseed, (pl as u64) << 40 | (y as u64) << 20 | x as u64);
     let k = 1u64 << (bd - 8);
+    // an out-of-range value: half of the time on a boundary - exactly one above the maximum,
+    // two above, a single high bit (2^n ... 2^15), the largest value of the storage type
+    let oob = |h: u64| -> u64 {
+        if tmax <= cmax {
+            return cmax;
+        }
+        match h % 10 {
+            0..=2 => cmax + 1,
+            3 => (cmax + 2).min(tmax),
+            4 => tmax,
+            5 => (1u64 << (bd + (h >> 8) % (16 - bd).max(1))).min(tmax),
+            _ => cmax + 1 + (h >> 4) % (tmax - cmax),
+        }
+    };
     let v = match op.datamode {
         1 => {
             let (lo, hi) = if pl == 0 { (16 * k, 235 * k) } else { (16 * k, 240 * k) };
@@ -444,7 +490,7 @@ pub fn yuv_sample(op: &Op, pl: usize, x: usize, y: usize) -> u16 {
         6 | 7 if has_oob_sample(op) => {
             // one out-of-range VALUE: everywhere (7), or at the mode-2 position and one to three
             // more visible positions (6); everything else valid
-            let value = cmax + 1 + mix(op.dataseed, 0xe9) % (tmax - cmax);
+            let value = oob(mix(op.dataseed, 0xe9));
             let (bw, bh, bp) = oob_position(op);
             if op.datamode == 7 || (pl == bp && x == bw && y == bh) {
                 value
@@ -465,7 +511,7 @@ pub fn yuv_sample(op: &Op, pl: usize, x: usize, y: usize) -> u16 {
             // every eighth other sample)
             let (bw, bh, bp) = oob_position(op);
             if (pl == bp && x == bw && y == bh) || (op.datamode == 5 && (r >> 50) % 8 == 0) {
-                cmax + 1 + r % (tmax - cmax)
+                oob(r)
             } else {
                 r % (cmax + 1)
             }
@@ -503,6 +549,23 @@ pub fn has_oob_sample(op: &Op) -> bool {
 
 
 /// Builds the frame a `NewYuv` op describes, through the public frame types only.
+/// Contents of an invisible sample (padding, alignment slot, window surroundings): mostly any
+/// value of the storage type (also ones illegal for the depth); for some frames the neutral
+/// chroma code everywhere (what `Plane::new` leaves behind in 8-bit planes), zero, or random
+/// values that are legal for the depth.
+fn pad_value(op: &Op, pl: usize, i: usize) -> u16 {
+    let seed = op.padseed | 1;
+    let r = mix(seed, (pl as u64) << 40 | i as u64);
+    let tmax: u64 = if op.which == 0 { 255 } else { 65535 };
+    let cmax = ((1u64 << op.cfg.bd) - 1).min(tmax);
+    (match seed % 16 {
+        3 => (1u64 << (op.cfg.bd - 1)).min(tmax),
+        5 => 0,
+        11 => r % (cmax + 1),
+        _ => r & 0xffff,
+    }) as u16
+}
+
 pub fn build_frame<T: Pixel>(op: &Op) -> Frame<T> {
     let g = &op.geo;
     let mk = |pl: usize| -> Plane<T> {
@@ -521,7 +584,7 @@ pub fn build_frame<T: Pixel>(op: &Op) -> Frame<T> {
             let slack = mix(op.dataseed, 0x77 + pl as u64);
             let stride = xo + w + (slack % 4) as usize;
             let rows = yo + h + usize::from((slack >> 8) % 10 < 3);
-            let mut data: Vec<T> = (0..stride * rows).map(|i| T::cast_from((mix(op.padseed | 1, (pl as u64) << 40 | i as u64) & 0xffff) as u16)).collect();
+            let mut data: Vec<T> = (0..stride * rows).map(|i| T::cast_from(pad_value(op, pl, i))).collect();
             for y in 0..h {
                 for x in 0..w {
                     data[(y + yo) * stride + x + xo] = T::cast_from(yuv_sample(op, pl, x, y));
@@ -551,8 +614,7 @@ pub fn build_frame<T: Pixel>(op: &Op) -> Frame<T> {
         if op.padseed != 0 {
             // padding contents: any value of the storage type, also ones illegal for the depth
             for (i, v) in p.data.iter_mut().enumerate() {
-                let r = mix(op.padseed, (pl as u64) << 40 | i as u64);
-                *v = T::cast_from((r & 0xffff) as u16);
+                *v = T::cast_from(pad_value(op, pl, i));
             }
         }
         for y in 0..h {
